@@ -245,6 +245,59 @@ def run(ck, facts, tier):
                  "%d business day(s) of `%s` have no publication, first %s" % (len(b), cal, b[:3]), "python/rateslib/data/%s.csv" % datafile,
                  sample="%s..%s: %d business days = publication dates" % (lo, hi, len(bus)))
 
+    # ---------------- R07.5 nothing between the literals and the calendar object alters them
+    import cel
+    from cel import Sym, Poly, Coll, Tup, Rec, Unsupported, vkey
+    from rules import gather
+    r5 = ck.rule("R07.5", "plumbing: get_holidays_by_name returns exactly one parsed date per literal of the table it looked up (no filtering, deduplication or "
+                          "truncation); get_weekmask_by_name returns the mask unchanged; Cal::new stores the set of all given holidays and the set of all given mask days", floor=3)
+    hk = {"@elem": gather.container_elem, "HashMap<K, V> as std::convert::From<[(K, V); N]>>::from": lambda ev, vals, e: Sym("hmap"),
+          "std::collections::HashMap::<K, V, S, A>::get": lambda ev, vals, e: Sym("lookup", vkey(vals[1]))}
+    NAME = Sym("param", "name")
+    for fn, kind in (("calendars::named::get_holidays_by_name", "holidays"), ("calendars::named::get_weekmask_by_name", "mask")):
+        r = facts.fn(fn)
+        where = "%s:%d" % (r["file"], r["line"]) if r else None
+        try:
+            got = cel.Ev(facts, hooks=hk).apply_fn(fn, [NAME], 0)
+            look = Sym("lookup", vkey(NAME))
+            leaves = {}
+            import paths
+            for c, v in paths.flatten(got):
+                dc = dict(c)
+                some = dc.get(("arm", ("Some", "_"), vkey(look)))
+                leaves["found" if some else "missing"] = v
+            val = Sym("payload", vkey(look), 0)
+            okm = isinstance(leaves.get("missing"), Sym) and leaves["missing"].tag[:2] == ("ctor", "Err")
+            if kind == "holidays":
+                f = leaves.get("found")
+                ok = isinstance(f, Sym) and f.tag[:2] == ("ctor", "Ok") and isinstance(f.tag[2], Coll) and vkey(f.tag[2].seq.src) == vkey(val)
+                if ok:
+                    el = f.tag[2].seq.fn(Poly.atom("i0"))
+                    lit = Sym("at", vkey(val), Poly.atom("i0").key())
+                    want = Sym("m", "unwrap", vkey(Sym("call", "chrono::NaiveDateTime::parse_from_str", (vkey(lit), vkey(Sym("lit", FMT))))), ())
+                    ok = vkey(el) == vkey(want)
+                ck.check(r5, "get_holidays_by_name", ok and okm, "get_holidays_by_name is not: unknown name -> Err; otherwise collect(parse(literal) for every literal of the table)",
+                         where, detail=cel.vfmt(f)[:400] if f is not None else None, sample="value.iter().map(|x| parse_from_str(x, FMT).unwrap()).collect()")
+            else:
+                f = leaves.get("found")
+                ok = isinstance(f, Sym) and f.tag[:2] == ("ctor", "Ok") and vkey(f.tag[2]) == vkey(val)
+                ck.check(r5, "get_weekmask_by_name", ok and okm, "get_weekmask_by_name is not: unknown name -> Err; otherwise the table's mask unchanged", where,
+                         detail=cel.vfmt(f)[:300] if f is not None else None, sample="value.to_vec()")
+        except Unsupported as e:
+            ck.fail(r5, fn.rsplit("::", 1)[-1], "rule could not be established (%s)" % e, where)
+    r = facts.fn("calendars::calendar::Cal::new")
+    try:
+        H, W = Sym("param", "holidays"), Sym("param", "week_mask")
+        got = cel.Ev(facts, hooks={"@elem": gather.container_elem}).apply_fn("calendars::calendar::Cal::new", [H, W], 0)
+        ok = isinstance(got, Rec) and vkey(got.fields.get("holidays")) == vkey(Sym("collect", vkey(H))) and isinstance(got.fields.get("week_mask"), Coll) and \
+            vkey(got.fields["week_mask"].seq.src) == vkey(W)
+        if ok:
+            el = got.fields["week_mask"].seq.fn(Poly.atom("i0"))
+            ok = vkey(el) == vkey(Sym("m", "unwrap", vkey(Sym("call", "<chrono::Weekday as std::convert::TryFrom<u8>>::try_from", (vkey(Sym("at", vkey(W), Poly.atom("i0").key())),))), ()))
+        ck.check(r5, "Cal::new", ok, "Cal::new does not store exactly the given holidays and the weekdays of the given mask", "%s:%d" % (r["file"], r["line"]) if r else None,
+                 detail=cel.vfmt(got)[:400], sample="holidays: from_iter(holidays), week_mask: from_iter(mask.map(Weekday::try_from))")
+    except Unsupported as e:
+        ck.fail(r5, "Cal::new", "rule could not be established (%s)" % e)
     ck.not_decided += ["whether the repository's <name>_script.py rule lists match the central banks' publications (they are the repo's statement of the rules)",
                        "holidays of tro/tyo/syd/wlg/mum produced by script-local observance functions (listed under rules_not_interpreted)"]
     ck.trusted += ["lib/holidays.py interpreter of the pandas Holiday subset (validated by reproducing every fully interpretable table exactly)", "python ast/csv"]
